@@ -256,13 +256,13 @@ pub(crate) fn bitenum(config: Config, input: &syn::ItemEnum) -> syn::Result<Toke
     let (raw_value_constructor, reader) = (bits.constructor()?, bits.reader());
 
     let non_exhaustive = config.exhaustive.matches(false);
-    let ok = non_exhaustive.then_some(quote!(Ok));
+    let ok = non_exhaustive.then_some(quote!(::core::result::Result::Ok));
     let new_return_type = match non_exhaustive {
-        true => quote!(Result<Self, #base_type>),
+        true => quote!(::core::result::Result<Self, #base_type>),
         false => quote!(Self),
     };
     let new_default_branch = match non_exhaustive {
-        true => quote!(value => Err(value)),
+        true => quote!(value => ::core::result::Result::Err(value)),
         false => quote!(_ => unreachable!()),
     };
     let new_match_branches = input.variants.iter().map(|variant| {
